@@ -1,9 +1,26 @@
 import Refinery.Model.SamplerSelect
+import Refinery.Lemmas.SamplerSelect
 /-!
 # C14 — each trace is sampled by the sampler configured for its destination
+
+Statement (properties.jsonl): a trace sent with an environment-scoped API key is sampled by the
+sampler configured for its environment name, and one sent with a classic key by the sampler
+configured for its dataset (prefixed with DatasetPrefix when set), falling back to `__default__`
+when that name has no sampler.  The same selection decides which fields are extracted at ingestion,
+so every field the selected sampler reads is available when it decides.
+
+* `legacy_key_spec`, `spec_legacy_iff` — which byte strings are classic keys (all byte strings);
+* `selection_spec`, `env_of_classic` — the destination name (all keys, names, prefixes);
+* `default_fallback`, `lookup_sites_agree` — lookup with `__default__` (all rules files, names);
+* `ingest_decide_agree`, `uniform_trace_agree` — the ingestion site and `makeDecision` compute the
+  same selection of the same triple (all histories of requests and decisions);
+* `fields_available_partial`, `fields_available_non_id`, `fields_available_no_extraction`,
+  `fields_available_at_decision` — what holds of "every field the selected sampler reads is
+  available"; `FullStatement` / `full_statement_refuted` — the full-strength statement fails on the
+  code as it is (a sampler field that is also a trace-id / parent-id field).
 -/
 namespace Refinery.Props.C14
-open Refinery Refinery.Model.SamplerSelect
+open Refinery Refinery.Model.SamplerSelect Refinery.Lemmas.SamplerSelect
 
 /-! ## Key classification -/
 
@@ -22,6 +39,10 @@ theorem isHexLower_iff (c : Nat) : isHexLower c = true ↔ HexLower c := by
 theorem isAlnumLower_iff (c : Nat) : isAlnumLower c = true ↔ AlnumLower c := by
   simp [isAlnumLower, isDigit, AlnumLower]
 
+/-- **legacy_key_spec** — for every byte string `k`: the code treats `k` as a classic ("legacy") key
+exactly when `k` is 32 lower-case hex digits or `hc`, one lower-case letter, `ic_` and 58 characters
+of `[0-9a-z]`; everything else — environment keys, malformed keys, the empty key, near misses of
+either shape, upper-case variants — is environment-scoped. -/
 theorem legacy_key_spec (k : Str) : isLegacyKey k = true ↔ Classic k := by
   unfold isLegacyKey Classic ClassicConfigKey ClassicIngestKey
   by_cases h32 : k.length = 32
@@ -164,148 +185,6 @@ theorem lookup_sites_agree (r : Rules) (name : Str) :
 
 /-! ## The two call sites -/
 
-/-- What the ingestion site computed for a span is the selection function applied to the triple the
-span was handed to the collector with. -/
-def SpanOK (c : Cfg) (sp : SpanSt) : Prop :=
-  ∀ sel, sp.ingSel = some sel → sel = samplerKey c.pfx sp.key sp.env sp.ds
-
-/-- A buffered trace: every span is `SpanOK`; key and dataset are the first span's; the environment
-is the first non-empty environment among its spans. -/
-def TraceOK (c : Cfg) (t : TraceSt) : Prop :=
-  (∀ sp ∈ t.spans, SpanOK c sp) ∧
-  (∃ sp0 rest, t.spans = sp0 :: rest ∧ t.key = sp0.key ∧ t.ds = sp0.ds) ∧
-  (t.env = [] → ∀ sp ∈ t.spans, sp.env = []) ∧
-  (t.env ≠ [] → ∃ sp ∈ t.spans, sp.env = t.env)
-
-def Inv (c : Cfg) (s : St) : Prop := ∀ tid t, AList.get s.traces tid = some t → TraceOK c t
-
-theorem route_spanOK {c : Cfg} {path : Path} {key : Str} {env : Option Str} {ds : Str}
-    {data : List (Str × Val)} {tid : Str} {sp : SpanSt}
-    (h : routeSpan c path key env ds data = .span tid sp) : SpanOK c sp := by
-  have hm : ∃ e p, sp = mkSpan c path key e ds p := by
-    unfold routeSpan at h
-    split at h
-    · simp at h
-    · split at h
-      · simp at h
-      · rename_i e _
-        unfold routeWith at h
-        split at h
-        · simp at h
-        · unfold routeExtract at h
-          split at h
-          · simp at h
-          · split at h
-            · simp at h
-            · simp only [Routed.span.injEq] at h
-              exact ⟨e, _, h.2.symm⟩
-  obtain ⟨e, p, rfl⟩ := hm
-  intro sel hsel
-  simp only [mkSpan] at hsel ⊢
-  split at hsel
-  · simp at hsel
-  · simp only [Option.some.injEq] at hsel
-    exact hsel.symm
-
-theorem traceOK_new (c : Cfg) (sp : SpanSt) (h : SpanOK c sp) :
-    TraceOK c (addSpan { key := sp.key, env := sp.env, ds := sp.ds } sp) := by
-  unfold addSpan
-  refine ⟨?_, ⟨sp, [], by simp, rfl, rfl⟩, ?_, ?_⟩
-  · intro x hx
-    simp at hx
-    subst hx
-    exact h
-  · intro he x hx
-    simp at hx
-    subst hx
-    by_cases h0 : x.env = []
-    · exact h0
-    · simp [h0] at he
-  · intro he
-    refine ⟨sp, by simp, ?_⟩
-    by_cases h0 : sp.env = [] <;> simp [h0]
-
-theorem traceOK_add (c : Cfg) (t : TraceSt) (sp : SpanSt) (ht : TraceOK c t) (h : SpanOK c sp) :
-    TraceOK c (addSpan t sp) := by
-  obtain ⟨h1, ⟨sp0, rest, hs, hk, hd⟩, h3, h4⟩ := ht
-  unfold addSpan
-  refine ⟨?_, ⟨sp0, rest ++ [sp], by simp [hs], hk, hd⟩, ?_, ?_⟩
-  · intro x hx
-    simp only [List.mem_append, List.mem_singleton] at hx
-    rcases hx with hx | rfl
-    · exact h1 x hx
-    · exact h
-  · intro he x hx
-    simp only at he
-    simp only [List.mem_append, List.mem_singleton] at hx
-    by_cases ht0 : t.env = []
-    · by_cases hs0 : sp.env = []
-      · rcases hx with hx | rfl
-        · exact h3 ht0 x hx
-        · exact hs0
-      · simp [ht0, hs0] at he
-    · simp [ht0] at he
-  · intro he
-    simp only at he ⊢
-    by_cases ht0 : t.env = []
-    · by_cases hs0 : sp.env = []
-      · simp [ht0, hs0] at he
-      · refine ⟨sp, by simp, ?_⟩
-        simp [ht0, hs0]
-    · obtain ⟨x, hx, hxe⟩ := h4 ht0
-      refine ⟨x, by simp [hx], ?_⟩
-      simp [ht0, hxe]
-
-theorem inv_step (c : Cfg) (s : St) (o : Op) (h : Inv c s) : Inv c (step c s o).1 := by
-  cases o with
-  | classify k => exact h
-  | selkey k e d => exact h
-  | lookup n => exact h
-  | span path key env ds data =>
-    simp only [step]
-    cases hr : routeSpan c path key env ds data with
-    | nosampler => exact h
-    | nothing => exact h
-    | panic => exact h
-    | event => exact h
-    | span tid sp =>
-      simp only
-      by_cases hl : s.decided.contains tid = true
-      · simp only [hl, if_true]; exact h
-      · simp only [hl]
-        intro tid' t' hg
-        have hok := route_spanOK hr
-        simp only [collectSpan, Bool.false_eq_true, if_false] at hg
-        rw [AList.get_put] at hg
-        by_cases ht : tid = tid'
-        · simp only [ht, if_true, Option.some.injEq] at hg
-          subst hg
-          cases hgt : AList.get s.traces tid with
-          | none => rw [← ht]; simp only [hgt]; exact traceOK_new c sp hok
-          | some t => rw [← ht]; simp only [hgt]; exact traceOK_add c t sp (h tid t hgt) hok
-        · simp only [ht, if_false] at hg
-          exact h tid' t' hg
-  | decide tid =>
-    simp only [step]
-    cases hg : AList.get s.traces tid with
-    | none => exact h
-    | some t =>
-      intro tid' t' hg'
-      simp only at hg'
-      rw [AList.get_del] at hg'
-      by_cases ht : tid = tid'
-      · simp [ht] at hg'
-      · simp only [ht, if_false] at hg'
-        exact h tid' t' hg'
-
-theorem inv_run (c : Cfg) (ops : List Op) : Inv c (run c ops) := by
-  unfold run
-  have : ∀ (s : St), Inv c s → Inv c (ops.foldl (fun s o => (step c s o).1) s) := by
-    induction ops with
-    | nil => intro s hs; exact hs
-    | cons o t ih => intro s hs; exact ih _ (inv_step c s o hs)
-  exact this {} (by intro tid t h; simp at h)
-
 /-- **ingest_decide_agree** — in every state reachable by any sequence of requests and decisions, for
 every buffered trace and every span of it that was handed to the collector with the trace's own
 (key, environment, dataset): the selector the ingestion site computed is the selector `makeDecision`
@@ -355,249 +234,6 @@ theorem uniform_trace_agree (c : Cfg) (ops : List Op) (tid : Str) (t : TraceSt)
 
 /-! ## Fields available at decision time -/
 
-section extract
-variable (tids pids skf : List Str)
-
-theorem keyStep_found_le (st : Ex) (k : Str) (v : Val) : st.found ≤ (keyStep skf st k v).found := by
-  unfold keyStep; split <;> simp
-
-theorem keyStep_memo_mono (st : Ex) (k : Str) (v : Val) (k' : Str) (h : AList.get st.memo k' ≠ none) :
-    AList.get (keyStep skf st k v).memo k' ≠ none := by
-  unfold keyStep
-  split
-  · simp only [AList.get_put]
-    split <;> simp_all
-  · exact h
-
-theorem exStep_found_le (st : Ex) (kv : Str × Val) : st.found ≤ (exStep tids pids skf st kv).found := by
-  unfold exStep
-  split
-  · split
-    · simp
-    · split
-      · simp
-      · exact keyStep_found_le skf st _ _
-  · exact keyStep_found_le skf st _ _
-
-theorem exStep_memo_mono (st : Ex) (kv : Str × Val) (k' : Str) (h : AList.get st.memo k' ≠ none) :
-    AList.get (exStep tids pids skf st kv).memo k' ≠ none := by
-  unfold exStep
-  split
-  · split
-    · exact h
-    · split
-      · exact h
-      · exact keyStep_memo_mono skf st _ _ k' h
-  · exact keyStep_memo_mono skf st _ _ k' h
-
-theorem exFold_mono (l : List (Str × Val)) (st : Ex) :
-    st.found ≤ (l.foldl (exStep tids pids skf) st).found ∧
-    ∀ k', AList.get st.memo k' ≠ none → AList.get (l.foldl (exStep tids pids skf) st).memo k' ≠ none := by
-  induction l generalizing st with
-  | nil => exact ⟨Nat.le_refl _, fun _ h => h⟩
-  | cons kv t ih =>
-    simp only [List.foldl_cons]
-    have := ih (exStep tids pids skf st kv)
-    exact ⟨Nat.le_trans (exStep_found_le tids pids skf st kv) this.1,
-      fun k' h => this.2 k' (exStep_memo_mono tids pids skf st kv k' h)⟩
-
-/-- every memoized entry is an entry of the payload, under a selected field -/
-theorem exFold_sound (D l : List (Str × Val)) (st : Ex) (hl : ∀ kv ∈ l, kv ∈ D)
-    (hq : ∀ k v, AList.get st.memo k = some v → (k, v) ∈ D ∧ k ∈ skf) :
-    ∀ k v, AList.get (l.foldl (exStep tids pids skf) st).memo k = some v → (k, v) ∈ D ∧ k ∈ skf := by
-  induction l generalizing st with
-  | nil => exact hq
-  | cons kv t ih =>
-    simp only [List.foldl_cons]
-    apply ih
-    · intro x hx; exact hl x (List.mem_cons_of_mem _ hx)
-    · have hks : ∀ v', (∀ k v, AList.get (keyStep skf st kv.1 v').memo k = some v → (k, v) ∈ D ∧ k ∈ skf) ∨ v' ≠ kv.2 := by
-        intro v'
-        by_cases hv' : v' = kv.2
-        · left
-          subst hv'
-          unfold keyStep
-          split
-          · rename_i hc
-            intro k v hg
-            simp only [AList.get_put] at hg
-            split at hg
-            · rename_i hkk
-              simp only [Option.some.injEq] at hg
-              subst hg; subst hkk
-              exact ⟨hl kv (by simp), hc.2.1⟩
-            · exact hq k v hg
-          · exact hq
-        · right; exact hv'
-      unfold exStep
-      split
-      · rename_i s hs
-        split
-        · exact hq
-        · split
-          · exact hq
-          · rcases hks kv.2 with h | h
-            · exact h
-            · exact absurd rfl h
-      · rename_i v' hv' 
-        rcases hks kv.2 with h | h
-        · exact h
-        · exact absurd rfl h
-
-/-- a selected field that is present and is not consumed as a trace / parent id is memoized, unless
-every selected field had already been found -/
-theorem exFold_complete (l : List (Str × Val)) (st : Ex) (k : Str) (v : Val) (hm : (k, v) ∈ l)
-    (hid : ∀ s, v = .str s → k ∉ tids ∧ k ∉ pids) (hk : k ∈ skf)
-    (hf : (l.foldl (exStep tids pids skf) st).found < skf.length) :
-    AList.get (l.foldl (exStep tids pids skf) st).memo k ≠ none := by
-  induction l generalizing st with
-  | nil => simp at hm
-  | cons kv t ih =>
-    simp only [List.foldl_cons] at hf ⊢
-    rcases List.mem_cons.mp hm with heq | hmt
-    · subst heq
-      have hmono := exFold_mono tids pids skf t (exStep tids pids skf st (k, v))
-      apply hmono.2
-      have hst : (exStep tids pids skf st (k, v)) = keyStep skf st k v := by
-        unfold exStep
-        cases v with
-        | str s =>
-          have := hid s rfl
-          simp [this.1, this.2]
-        | int n => rfl
-      rw [hst]
-      have hlt : st.found < skf.length := by
-        have h1 := exStep_found_le tids pids skf st (k, v)
-        have h2 := hmono.1
-        omega
-      unfold keyStep
-      by_cases hg : AList.get st.memo k = none
-      · simp [hlt, hk, hg, AList.get_put]
-      · simp [hg]
-    · exact ih _ hmt hf
-
-end extract
-
-theorem extract_memo_sound (tids pids skf : List Str) (data : List (Str × Val)) (k : Str) (v : Val)
-    (h : AList.get (extract tids pids skf data).memo k = some v) : (k, v) ∈ data ∧ k ∈ skf := by
-  unfold extract at h
-  exact exFold_sound tids pids skf data data {} (fun _ h => h) (by intro k v h; simp at h) k v h
-
-theorem extract_missing (tids pids skf : List Str) (data : List (Str × Val)) (k : Str)
-    (h : k ∈ (extract tids pids skf data).missing) :
-    k ∈ skf ∧ (data.foldl (exStep tids pids skf) {}).found < skf.length := by
-  unfold extract at h
-  simp only at h
-  split at h
-  · rename_i hlt
-    exact ⟨(List.mem_filter.mp h).1, hlt⟩
-  · simp at h
-
-theorem extract_not_missing (tids pids skf : List Str) (data : List (Str × Val)) (k : Str) (v : Val)
-    (hm : (k, v) ∈ data) (hid : k ∈ skf → ∀ s, v = .str s → k ∉ tids ∧ k ∉ pids)
-    (hnone : AList.get (extract tids pids skf data).memo k = none) :
-    k ∉ (extract tids pids skf data).missing := by
-  intro hmiss
-  obtain ⟨hk, hlt⟩ := extract_missing tids pids skf data k hmiss
-  have := exFold_complete tids pids skf data {} k v hm (hid hk) hk hlt
-  unfold extract at hnone
-  exact this hnone
-
-/-! `MemoizeFields` -/
-
-theorem memoFold_other (tf : List Str) (l : List (Str × Val)) (acc : AList Str Val × Nat) (k : Str)
-    (h : k ∉ tf ∨ k ∉ l.map (·.1)) : AList.get (l.foldl (memoStep tf) acc).1 k = AList.get acc.1 k := by
-  induction l generalizing acc with
-  | nil => rfl
-  | cons kv t ih =>
-    simp only [List.foldl_cons]
-    rw [ih]
-    · unfold memoStep
-      split
-      · rename_i hc
-        simp only [AList.get_put]
-        split
-        · rename_i hkk
-          subst hkk
-          rcases h with h | h
-          · exact absurd hc.2 h
-          · simp at h
-        · rfl
-      · rfl
-    · rcases h with h | h
-      · exact Or.inl h
-      · right; intro hx; exact h (by simp only [List.map_cons, List.mem_cons]; exact Or.inr hx)
-
-theorem filter_mem_mono (tf proc : List Str) (k : Str) :
-    (tf.filter (fun x => decide (x ∈ proc))).length ≤ (tf.filter (fun x => decide (x ∈ k :: proc))).length := by
-  induction tf with
-  | nil => simp
-  | cons a t ih =>
-    simp only [List.filter_cons]
-    by_cases ha : a ∈ proc
-    · have : a ∈ k :: proc := List.mem_cons_of_mem _ ha
-      simp [ha, this]; omega
-    · by_cases hk : a ∈ k :: proc
-      · simp [ha, hk]; omega
-      · simp [ha, hk]; exact ih
-
-theorem filter_mem_step (tf proc : List Str) (k : Str) (hk : k ∈ tf) (hn : k ∉ proc) :
-    (tf.filter (fun x => decide (x ∈ proc))).length + 1 ≤ (tf.filter (fun x => decide (x ∈ k :: proc))).length := by
-  induction tf with
-  | nil => simp at hk
-  | cons a t ih =>
-    simp only [List.filter_cons]
-    by_cases hak : a = k
-    · subst hak
-      have := filter_mem_mono t proc a
-      simp [hn]; omega
-    · have hkt : k ∈ t := by
-        rcases List.mem_cons.mp hk with h | h
-        · exact absurd h.symm hak
-        · exact h
-      have := ih hkt
-      by_cases ha : a ∈ proc
-      · have h2 : a ∈ k :: proc := List.mem_cons_of_mem _ ha
-        simp [ha, h2]; omega
-      · have h2 : a ∉ k :: proc := by simp [hak, ha]
-        simp [ha, h2]; exact this
-
-/-- a requested key that occurs in the payload is found by the scan: the scan's early exit
-(`keysFound == len(keysToFind)`) cannot come before it, because payload keys are distinct -/
-theorem memoFold_finds (tf : List Str) (l : List (Str × Val)) (proc : List Str) (acc : AList Str Val × Nat)
-    (hn : (l.map (·.1)).Nodup) (hd : ∀ x ∈ l.map (·.1), x ∉ proc)
-    (hc : acc.2 ≤ (tf.filter (fun x => decide (x ∈ proc))).length)
-    (f : Str) (v : Val) (hm : (f, v) ∈ l) (hf : f ∈ tf) :
-    AList.get (l.foldl (memoStep tf) acc).1 f = some v := by
-  induction l generalizing proc acc with
-  | nil => simp at hm
-  | cons kv t ih =>
-    simp only [List.foldl_cons]
-    simp only [List.map_cons, List.nodup_cons] at hn
-    rcases List.mem_cons.mp hm with heq | hmt
-    · subst heq
-      have hfp : f ∉ proc := hd f (by simp)
-      have hlt : acc.2 < tf.length := by
-        have : (tf.filter (fun x => decide (x ∈ proc))).length < tf.length :=
-          List.length_filter_lt_length_iff_exists.mpr ⟨f, hf, by simp [hfp]⟩
-        omega
-      rw [memoFold_other tf t _ f (Or.inr hn.1)]
-      simp [memoStep, hlt, hf, AList.get_put]
-    · apply ih (k := kv.1 :: proc) hn.2
-      · intro x hx
-        simp only [List.mem_cons, not_or]
-        refine ⟨?_, hd x (by simp only [List.map_cons, List.mem_cons]; exact Or.inr hx)⟩
-        intro hxe; subst hxe; exact hn.1 hx
-      · have hkp : kv.1 ∉ proc := hd kv.1 (by simp)
-        unfold memoStep
-        split
-        · rename_i hcnd
-          have := filter_mem_step tf proc kv.1 hcnd.2 hkp
-          simp only; omega
-        · have := filter_mem_mono tf proc kv.1
-          omega
-      · exact hmt
-
 /-- **fields_available (the part that holds)** — whatever field selection `skf` ingestion extracted
 with (the sampler of another destination, an older rules file, none at all on the OTLP path), after
 `makeDecision`'s `MemoizeFields(keys)` every field `f` among the deciding sampler's `keys` that the
@@ -645,7 +281,94 @@ theorem fields_available_partial (tids pids skf keys : List Str) (data : List (S
       simp at ht
     · simp only [Pay.get]
       have := memoFold_finds (toFind keys (extract tids pids skf data)) data [] ((extract tids pids skf data).memo, 0)
-        hn (by simp) (by simp) f v hmem ht
+        hn (by simp) (by simp [seenCount]) f v hmem ht
       rw [hdata, this]
+
+
+/-- **fields_available, full strength** — every field the deciding sampler reads that the client sent
+is available to it with the client's value, whatever ingestion extracted. -/
+def FullStatement : Prop :=
+  ∀ (tids pids skf keys : List Str) (data : List (Str × Val)) (f : Str) (v : Val),
+    (data.map (·.1)).Nodup → f ∈ keys → first data f = some v →
+    (memoize keys (extract tids pids skf data)).get f = some v
+
+/-- The code violates it: a sampler that reads `trace.parent_id` (a rule `trace.parent_id exists`,
+say) — ingestion selects the field, consumes it as the parent id without memoizing it, and then
+records it as *missing*; `MemoizeFields` and `Get` trust that record, so the sampler reads nil from a
+span that carries `trace.parent_id = "p1"`. -/
+theorem full_statement_refuted : ¬ FullStatement := by
+  intro h
+  have := h [ascii "trace.trace_id"] [ascii "trace.parent_id"] [ascii "trace.parent_id"] [ascii "trace.parent_id"]
+    [(ascii "trace.trace_id", .str (ascii "t1")), (ascii "trace.parent_id", .str (ascii "p1"))]
+    (ascii "trace.parent_id") (.str (ascii "p1")) (by decide) (by decide) (by decide)
+  revert this
+  decide
+
+/-- When ingestion extracted nothing (the OTLP path) every field is available. -/
+theorem fields_available_no_extraction (tids pids keys : List Str) (data : List (Str × Val)) (f : Str) (v : Val)
+    (hn : (data.map (·.1)).Nodup) (hf : f ∈ keys) (hv : first data f = some v) :
+    (memoize keys (extract tids pids [] data)).get f = some v :=
+  fields_available_partial tids pids [] keys data f v hn hf hv (by intro h; simp at h)
+
+/-- Fields that are not configured trace-id / parent-id names are always available. -/
+theorem fields_available_non_id (tids pids skf keys : List Str) (data : List (Str × Val)) (f : Str) (v : Val)
+    (hn : (data.map (·.1)).Nodup) (hf : f ∈ keys) (hv : first data f = some v)
+    (hid : f ∉ tids ∧ f ∉ pids) :
+    (memoize keys (extract tids pids skf data)).get f = some v :=
+  fields_available_partial tids pids skf keys data f v hn hf hv (fun _ _ _ => hid)
+
+/-- **fields_available at the decision** — in every reachable state, for every span of a buffered
+trace and every field the deciding sampler reads on that span (all key fields on a root span, the
+non-root ones otherwise): if the client sent the field (distinct keys) and it is not a configured
+trace-id / parent-id name, then after `makeDecision`'s `MemoizeFields` the sampler's `Get` returns
+the client's value — no matter which sampler's fields ingestion extracted for that span. -/
+theorem fields_available_at_decision (c : Cfg) (ops : List Op) (tid : Str) (t : TraceSt)
+    (h : AList.get (run c ops).traces tid = some t) (keys : List Str)
+    (sp : SpanSt) (hsp : sp ∈ t.spans) (f : Str) (hf : f ∈ keys) (v : Val)
+    (hn : (sp.pay.data.map (·.1)).Nodup) (hv : first sp.pay.data f = some v)
+    (hid : f ∉ c.tids ∧ f ∉ c.pids) :
+    (memoize keys sp.pay).get f = some v := by
+  obtain ⟨skf, data, hp⟩ := spans_inv c (fun sp => ∃ skf data, sp.pay = extract c.tids c.pids skf data)
+    (fun path key env ds data tid sp hr => by
+      obtain ⟨skf, hs⟩ := route_span_pay hr
+      exact ⟨skf, data, hs⟩) ops tid t h sp hsp
+  have hd : sp.pay.data = data := by rw [hp]; rfl
+  rw [hd] at hn hv
+  rw [hp]
+  exact fields_available_non_id c.tids c.pids skf keys data f v hn hf hv hid
+
+/-! ## Non-vacuity -/
+
+def kClassic : Str := ascii "0123456789abcdef0123456789abcdef"
+def kIngest : Str := ascii "hcaic_0123456789abcdefghijklmnopqrstuvwxyz0123456789abcdefghijkl"
+def kEnvIngest : Str := ascii "hcaik_0123456789abcdefghijklmnopqrstuvwxyz0123456789abcdefghijkl"
+
+example : isLegacyKey kClassic = true := by decide
+example : isLegacyKey kIngest = true := by decide
+example : isLegacyKey kEnvIngest = false := by decide
+example : isLegacyKey (ascii "0123456789abcdef0123456789abcdeF") = false := by decide      -- upper-case hex
+example : isLegacyKey (ascii "0123456789abcdef0123456789abcde") = false := by decide       -- 31
+example : isLegacyKey (ascii "0123456789abcdef0123456789abcdef0") = false := by decide     -- 33
+example : isLegacyKey (ascii "hc1ic_0123456789abcdefghijklmnopqrstuvwxyz0123456789abcdefghijkl") = false := by decide
+example : isLegacyKey [] = false := by decide
+example : (ascii Refinery.Gen.Samplersel.rootPrefix).all (· < 128) = true ∧ rootPrefix ≠ [] := by decide
+example : samplerKey (ascii "pfx") kClassic (ascii "prod") (ascii "ds1") = ascii "pfx.ds1" := by decide
+example : samplerKey (ascii "pfx") kEnvIngest (ascii "prod") (ascii "ds1") = ascii "prod" := by decide
+example : samplerKey [] kIngest (ascii "prod") (ascii "ds1") = ascii "ds1" := by decide
+
+def exRules : Rules :=
+  [(defaultName, { kind := .det, rate := 2, fields := [] }),
+   (ascii "prod", { kind := .dyn, rate := 5, fields := [ascii "f1", ascii "root.f2"] })]
+
+example : lookupSampler exRules (ascii "prod") = some { kind := .dyn, rate := 5, fields := [ascii "f1", ascii "root.f2"] } := by decide
+example : (lookupSampler exRules (ascii "staging")).map (·.rate) = some 2 := by decide
+example : ingestFields exRules [] kEnvIngest (ascii "prod") (ascii "ds1") = some [ascii "f2", ascii "f1"] := by decide
+example : keyFields [[]] = none := by decide
+-- a field that is not an id field is read back although ingestion selected nothing of the sort
+example : (memoize [ascii "f1"] (extract [ascii "trace.trace_id"] [ascii "trace.parent_id"] [ascii "zz"]
+    [(ascii "trace.trace_id", .str (ascii "t1")), (ascii "f1", .int 7)])).get (ascii "f1") = some (.int 7) := by decide
+-- the refutation witness, spelled out
+example : (memoize [ascii "trace.parent_id"] (extract [ascii "trace.trace_id"] [ascii "trace.parent_id"] [ascii "trace.parent_id"]
+    [(ascii "trace.trace_id", .str (ascii "t1")), (ascii "trace.parent_id", .str (ascii "p1"))])).get (ascii "trace.parent_id") = none := by decide
 
 end Refinery.Props.C14
